@@ -937,3 +937,92 @@ def rule_failure_tested_wide(ctx):
     ctx.holds("NARROWFAIL", "NARROWFAIL:hfiledd", "hdf/src/hfiledd.c", "%d equality tests, none between a narrowed search result and 0xFFFF" % n, nontrivial=False)
     ctx.floor("NARROWFAIL", 20, n, "(equality tests in hfiledd.c)")
     return n
+
+
+def rule_special_variant_matched(ctx):
+    """SPECIALMATCH (C12): an element stored as a special element (linked blocks, compressed, external, chunked) carries the special
+    variant of its tag in the directory.  A search for the base tag must find it, in every search mode and direction: wherever
+    HTIfind_dd compares a descriptor's tag with the tag looked for, the same condition also accepts `special_tag`, unless an
+    enclosing test has established that the tag has no special variant."""
+    from .codec import ast_walk
+    prog = ctx.prog
+    f = prog.func("HTIfind_dd")
+    if f is None:
+        ctx.unrecognised("SPECIALMATCH", "SPECIALMATCH:HTIfind_dd", "-", "HTIfind_dd not found")
+        return 0
+    sites = []
+
+    def is_tag_cmp(x, name):
+        if x[0] != "bin" or x[1] != "==":
+            return False
+        sides = [strip(x[2]), strip(x[3])]
+        return any((mem_field(s) or (0, 0)) == ("dd_t", "tag") for s in sides) and any(kind(s) == "var" and s[1] == name for s in sides)
+
+    def vis(nn, st):
+        if nn[0] == "if":
+            if any(is_tag_cmp(x, "look_tag") for x in walk(nn[1], True)):
+                outer = [a for a in st if a[0] == "if"]
+                sites.append((nn, outer, [a for a in st]))
+        return True
+    ast_walk(f.raw.get("ast"), vis)
+    n = 0
+    for k, (nn, outer, st) in enumerate(sites):
+        n += 1
+        key = "SPECIALMATCH:HTIfind_dd#%d" % (k + 1)
+        same = any(is_tag_cmp(x, "special_tag") for x in walk(nn[1], True))
+        # enclosed by `if (special_tag == DFTAG_NULL)` (then-arm): nothing to match
+        none = False
+        for a in outer:
+            c = strip(a[1])
+            if kind(c) == "bin" and c[1] == "==" and kind(strip(c[2])) == "var" and strip(c[2])[1] == "special_tag" and is_int(c[3]):
+                # are we in the then-arm?
+                i = st.index(a)
+                child = st[i + 1] if i + 1 < len(st) else nn
+                if child is a[2] or a[2] in st[i + 1:i + 2]:
+                    none = True
+        if same:
+            ctx.holds("SPECIALMATCH", key, f.where(nn[4]), "the match also accepts special_tag", nontrivial=True)
+        elif none:
+            ctx.holds("SPECIALMATCH", key, f.where(nn[4]), "only reached when the tag has no special variant (special_tag == DFTAG_NULL)", nontrivial=False)
+        else:
+            ctx.violated("SPECIALMATCH", key, f.where(nn[4]), "`%s` matches the base tag only: an element stored under the special variant of the tag is not found by this search mode" % render(nn[1])[:80])
+    ctx.floor("SPECIALMATCH", 3, n, "(tag matches in HTIfind_dd)")
+    return n
+
+
+def rule_tag_tree_key_is_base(ctx):
+    """BASETAGKEY (C12): the per-file tag tree (and the bit vector of used references hanging off it) is keyed by *base* tag: the
+    special variant of a tag shares the entry of its base tag.  Every look-up in `tag_tree` therefore uses a key that was reduced
+    with BASETAG(); a look-up with the caller's tag misses the entry for a special tag, and Htagnewref then hands out reference 1
+    although it is in use."""
+    prog = ctx.prog
+    n = 0
+    for f in prog.lib_funcs():
+        if not f.rel.endswith(("hfiledd.c", "hfile.c")):
+            continue
+        # statements that use BASETAG, by line
+        base_defs = set()
+        blines = {l for (mf, l, c), ms in prog.macros.get(f.tu, {}).items() if mf == f.file and f.line <= l <= f.endline and any(m["n"] == "BASETAG" for m in ms)}
+        for bid, i, st in f.stmts():
+            if st["l"] in blines:
+                for x in walk(st["e"], True):
+                    if x[0] == "decl":
+                        for d in x[1]:
+                            if d[2] is not None:
+                                base_defs.add(d[0])
+                    elif x[0] == "asg" and kind(strip(x[2])) == "var":
+                        base_defs.add(strip(x[2])[1])
+        ordn = 0
+        for _b, _i, _s, c in f.calls():
+            if c[1] != "tbbtdfind" or len(c[3]) < 2 or not any(y[0] == "mem" and y[2] == "tag_tree" for y in walk(c[3][0], True)):
+                continue
+            ordn += 1
+            n += 1
+            key = "BASETAGKEY:%s#%d" % (f.name, ordn)
+            v = base_var(c[3][1])
+            if v in base_defs:
+                ctx.holds("BASETAGKEY", key, f.where(c[5]), "key `%s` was computed with BASETAG()" % v, nontrivial=True)
+            else:
+                ctx.violated("BASETAGKEY", key, f.where(c[5]), "the tag tree is searched with `%s`, which was not reduced with BASETAG(): for a special tag the entry of its base tag is missed" % (v or render(c[3][1])[:30]))
+    ctx.floor("BASETAGKEY", 4, n, "(look-ups in the tag tree)")
+    return n
